@@ -58,10 +58,10 @@ histogram bincount interp float32 float64 int8 int16 int32 int64 uint8 uint16 ui
 result_type iinfo finfo dtype issubdtype isscalar ndim shape size nan_to_num around rint trunc
 random.permutation random.rand random.randn random.randint random.random random.uniform random.normal
 random.choice random.RandomState random.default_rng random.seed ma.count ma.getmaskarray vectorize
-take compress extract delete insert roll triu tril eye identity diag outer cross cov corrcoef
-ma.masked_invalid ma.masked_where ma.masked_equal fromiter frombuffer fromfunction indices
+take compress extract delete insert roll triu tril eye identity outer cross cov corrcoef
+ma.masked_invalid ma.masked_where ma.masked_equal fromiter fromfunction indices
 isin in1d intersect1d union1d setdiff1d trapz sinh cosh tanh expm1 log1p cbrt reciprocal
-nancumsum nanprod average array_split broadcast_arrays"""
+nancumsum nanprod average"""
 # numpy functions whose result is a scalar when every argument is a scalar
 NP_SCALAR_OK = set("""sqrt arctan arctan2 sin cos tan arcsin arccos exp log log2 log10 abs absolute fabs sign
 floor ceil round isnan isfinite isinf mod power square radians degrees deg2rad rad2deg hypot maximum minimum
@@ -77,11 +77,15 @@ PRIMS.update({
     "np.transpose": "view", "np.squeeze": "view", "np.expand_dims": "view", "np.atleast_1d": "view",
     "np.atleast_2d": "view", "np.atleast_3d": "view", "np.broadcast_to": "view", "np.flip": "view",
     "np.flipud": "view", "np.fliplr": "view", "np.rot90": "view", "np.swapaxes": "view",
-    "np.moveaxis": "view", "np.rollaxis": "view", "np.diagonal": "view", "np.split": "view",
-    "np.hsplit": "view", "np.vsplit": "view", "np.real": "view", "np.imag": "view",
-    "np.ma.masked_array": "view", "np.ma.array": "view", "np.ma.asarray": "view", "np.nditer": "view",
+    "np.moveaxis": "view", "np.rollaxis": "view", "np.diagonal": "view", "np.diag": "view", "np.split": "view",
+    "np.hsplit": "view", "np.vsplit": "view", "np.array_split": "view", "np.broadcast_arrays": "view", "np.real": "view", "np.imag": "mview", "np.frombuffer": "view",
+    "np.ma.masked_array": "view", "np.ma.array": "view", "np.ma.asarray": "mview", "np.nditer": "view",
     "np.ndenumerate": "view", "np.lib.stride_tricks.as_strided": "view",
     "np.lib.stride_tricks.sliding_window_view": "view",
+    # dtype constructors return their argument when it already is an array of that type
+    "np.float32": "mview", "np.float64": "mview", "np.int8": "mview", "np.int16": "mview", "np.int32": "mview",
+    "np.int64": "mview", "np.uint8": "mview", "np.uint16": "mview", "np.uint32": "mview", "np.uint64": "mview",
+    "np.bool_": "mview",
     "np.copyto": "write0", "np.put": "write0", "np.place": "write0", "np.putmask": "write0",
     "np.fill_diagonal": "write0", "np.random.shuffle": "write0", "np.put_along_axis": "write0",
     "xr.DataArray": "view", "xr.Dataset": "join", "xr.concat": "alloc", "xr.merge": "alloc",
@@ -99,7 +103,7 @@ PRIMS.update({
     "print": "scalar", "repr": "scalar", "hash": "scalar", "id": "scalar", "callable": "scalar",
     "any": "scalar", "all": "scalar", "getattr": "join", "hasattr": "scalar", "divmod": "alloc", "pow": "alloc",
     "warnings.warn": "scalar", "warnings.simplefilter": "scalar", "warnings.catch_warnings": "scalar",
-    "sqrt": "alloc", "atan": "alloc", "atan2": "alloc", "isnan": "scalar", "ceil": "alloc", "floor": "alloc",
+    "sqrt": "alloc", "atan": "alloc", "atan2": "alloc", "fabs": "alloc", "isnan": "scalar", "ceil": "alloc", "floor": "alloc",
     "math.sqrt": "alloc", "math.atan": "alloc", "math.atan2": "alloc", "math.sin": "alloc", "math.cos": "alloc",
     "math.isnan": "scalar", "math.ceil": "alloc", "math.floor": "alloc", "cmath.isfinite": "scalar",
     "ValueError": "scalar", "TypeError": "scalar", "RuntimeError": "scalar", "NotImplementedError": "scalar",
@@ -120,13 +124,14 @@ for _n in """copy flatten min max sum mean std var prod item any all tolist roun
 argmax argmin nonzero compute persist to_delayed map_blocks map_overlap format lower upper replace split strip
 join issubset issuperset count index isin unique dot repeat take compress searchsorted tobytes
 startswith endswith nanmean ptp conj trace choose diagonal_copy tostring dump dumps isnull notnull fillna
-dropna to_numpy_copy median quantile rank cumulative rolling coarsen groupby to_dataframe to_dataset
-rechunk points raster line polygons to_pandas to_series iterrows equals identical broadcast_equals""".split():
+dropna to_numpy_copy median quantile rank cumulative rolling coarsen groupby to_dataframe
+rechunk points raster line polygons iterrows equals identical broadcast_equals""".split():
     METHODS[_n] = "alloc"
 for _n in """view transpose swapaxes squeeze sel isel get values items keys rename set_index reset_index
 drop drop_vars assign_coords assign_attrs expand_dims stack unstack chunk unify_chunks pipe to_numpy
 as_numpy to_index to_masked_array byteswap newbyteorder diagonal real imag flat getfield filled
-loc iloc head tail where_view __getitem__ most_common elements""".split():
+loc iloc head tail where_view __getitem__ most_common elements to_dataset to_pandas to_series to_array
+to_dataarray""".split():
     METHODS[_n] = "view"
 for _n in "reshape ravel astype_nocopy".split():
     METHODS[_n] = "mview"
@@ -461,6 +466,7 @@ class Translator:
         self.unknowns = []
         self.rebinds = []      # (input parameter, attribute, source text)
         self.inlined = set()
+        self.used = set()      # primitives of the table applied to an array (for the run-time probes)
 
     # ---- emission
     def new(self, name):
@@ -834,6 +840,7 @@ class Eval(Translator):
                 return self.load_elem(base)
             if advanced and self.kind.get(b) != "pyc":
                 t = self.new("fancy")
+                self.used.add("mask-index")
                 self.emit("copy", t, b)
                 self.isarr.add(t)
                 return ("var", t)
@@ -884,6 +891,8 @@ class Eval(Translator):
     def apply_prim(self, cls, what, args, kwargs, node=None):
         vals = [a[1] if a[0] == "star" else a for a in args]
         allv = vals + list(kwargs.values())
+        if any(self.vars_of(v) for v in allv):
+            self.used.add(what)
         if "out" in kwargs and kwargs["out"] != SC:
             for x in self.vars_of(kwargs["out"]):
                 self.emit("write", x)
@@ -1028,6 +1037,7 @@ class Eval(Translator):
             return SC
         r = recv[1]
         cls = METHODS.get(attr)
+        self.used.add("." + attr)
         if r in self.cont:
             if attr in ("append", "extend", "insert", "add", "update", "setdefault"):
                 self.emit("write", r)
@@ -1610,7 +1620,7 @@ def translate_entry(mods, mn, fn, node):
         ret = tr.new("RETURN")
     items = tr.blocks[0]
     return dict(module=mn, func=fn, k=k, params=inputs, ret=ret, items=items, status=status, nvars=tr.nvars,
-                names=tr.names, unclassified=sorted(tr.unclassified), unknowns=tr.unknowns,
+                names=tr.names, used=sorted(tr.used), unclassified=sorted(tr.unclassified), unknowns=tr.unknowns,
                 rebinds=[(inputs[i], attr, src) for i, attr, src in tr.rebinds],
                 inlined=sorted({f"{a}.{b}" for a, b, _ in tr.inlined}))
 
@@ -1930,7 +1940,7 @@ def generate(repo):
                    f"returns := [{', '.join(lean_fact(f) for f in facts)}] }}\n")
         rep["entries"][mn + "." + fn] = dict(
             status=e["status"], k=e["k"], params=e["params"], ret=e["ret"], ops=count_ops(e["items"]), raw_ops=raw_ops,
-            vars=e["nvars"], unclassified=e["unclassified"], unknowns=e["unknowns"], rebinds=e["rebinds"],
+            vars=e["nvars"], used=e["used"], unclassified=e["unclassified"], unknowns=e["unknowns"], rebinds=e["rebinds"],
             inlined=e["inlined"], meta=facts)
     out.append("def allEntries : List Entry := [" + ", ".join("entry_" + n for n in names) + "]\n")
     out.append("def allMeta : List FuncMeta := [" + ", ".join("meta_" + n for n in names) + "]\n")
